@@ -74,6 +74,133 @@ def attr_stores(body, obj='outf'):
     return out
 
 
+# ---------------------------------------------------------------------------------------------------- path-wise facts (paths.py)
+KW = ('kwds', 'dimslices')
+
+
+def _is_kw(c):
+    """the selection keywords, a copy of them, or a filtered copy"""
+    if isinstance(c, ast.Name) and c.id in KW:
+        return True
+    if isinstance(c, ast.Call) and isinstance(c.func, ast.Attribute) and c.func.attr in ('copy', 'keys') and _is_kw(c.func.value):
+        return True
+    if isinstance(c, ast.Call) and isinstance(c.func, ast.Name) and c.func.id == 'dict' and len(c.args) == 1 and _is_kw(c.args[0]):
+        return True
+    if isinstance(c, ast.DictComp) and len(c.generators) == 1 and isinstance(c.generators[0].iter, ast.Call) and isinstance(c.generators[0].iter.func, ast.Attribute) \
+            and c.generators[0].iter.func.attr == 'items' and _is_kw(c.generators[0].iter.func.value):
+        return True
+    return False
+
+
+def sel_of(e):
+    """(dimension, kind) when the expanded atom/expression is about a selection keyword: kind 'in' for `'D' in kwds`, 'sel' for the
+    selector value itself (kwds['D'], kwds.get('D'), kwds.pop('D', ...)), 'none' for `<selector> is None`"""
+    if isinstance(e, ast.Compare) and len(e.ops) == 1 and isinstance(e.ops[0], ast.In) and const_str(e.left) is not None and _is_kw(e.comparators[0]):
+        return const_str(e.left), 'in'
+    if isinstance(e, ast.Subscript) and _is_kw(e.value) and const_str(e.slice) is not None:
+        return const_str(e.slice), 'sel'
+    if isinstance(e, ast.Call) and isinstance(e.func, ast.Attribute) and e.func.attr in ('get', 'pop') and _is_kw(e.func.value) \
+            and e.args and const_str(e.args[0]) is not None:
+        return const_str(e.args[0]), 'sel'
+    if isinstance(e, ast.Compare) and len(e.ops) == 1 and isinstance(e.ops[0], ast.Is) and isinstance(e.comparators[0], ast.Constant) \
+            and e.comparators[0].value is None:
+        r = sel_of(e.left)
+        if r and r[1] == 'sel':
+            return r[0], 'none'
+    return None
+
+
+class Facts(object):
+    """every store to an attribute of the result object, path-wise and with temporaries substituted"""
+
+    def __init__(self, fn, obj='outf', limit=60000):
+        from .. import paths as _paths
+        self.fn, self.obj = fn, obj
+
+        def is_seed(st):
+            tg = st.targets if isinstance(st, ast.Assign) else ([st.target] if isinstance(st, ast.AugAssign) else (st.targets if isinstance(st, ast.Delete) else []))
+            if any(isinstance(t, ast.Attribute) and isinstance(t.value, ast.Name) and t.value.id == obj for t in tg):
+                return True
+            if any(isinstance(t, ast.Subscript) and norm(t.value) == obj + '.dimensions' for t in tg):
+                return True
+            return isinstance(st, ast.Expr) and isinstance(st.value, ast.Call) and dotted(st.value.func) == obj + '.updatemeta'
+        seeds = [st for st in iter_stmts(fn.body) if is_seed(st)]
+        self.paths = []
+        self.stores = []         # dict(attr, aug, value, stmt, conds, before_update, sel, path_index)
+        rel = _paths.relevance(fn.body, seeds)
+        for pth in _paths.enumerate_paths(fn.body, limit=limit, relevant=rel):
+            res = _paths.expand(pth, keep=(obj,))      # the result object stays a name: its attributes are what is stored
+            if not res.feasible or pth.exit[0] == 'raise':
+                continue
+            sel = {}
+            truthy = {}
+            for e_, x, p_ in res.conds:
+                r = sel_of(x)
+                if r is None:
+                    continue
+                if r[1] == 'in':
+                    sel[r[0]] = p_
+                elif r[1] == 'none':
+                    sel[r[0]] = not p_
+                elif r[1] == 'sel':
+                    truthy[r[0]] = (e_, p_)
+            idx = len(self.paths)
+            self.paths.append((pth, res, sel, truthy))
+            updated = False
+            for k_, (st, new) in enumerate(res.stmts):
+                if isinstance(st, ast.Expr) and isinstance(st.value, ast.Call) and dotted(st.value.func) == obj + '.updatemeta':
+                    updated = True
+                tg = new.targets if isinstance(new, ast.Assign) else ([new.target] if isinstance(new, ast.AugAssign) else [])
+                for t in tg:
+                    if isinstance(t, ast.Attribute) and isinstance(t.value, ast.Name) and t.value.id == obj:
+                        self.stores.append(dict(attr=t.attr, aug=isinstance(new, ast.AugAssign), op=getattr(new, 'op', None), value=new.value, stmt=st, new=new,
+                                                conds=res.conds[:res.ncond_at[k_]], before_update=not updated, sel=sel, truthy=truthy, path=idx))
+
+    def of(self, attr):
+        return [f for f in self.stores if f['attr'] == attr]
+
+    def controlling(self, facts):
+        """{expanded atom text: polarity} decided the same way on every path that contains one of these stores, and never decided the
+        other way on a path that reaches the same place without the store"""
+        out = None
+        for f in facts:
+            d = {}
+            for e_, x, p_ in f['conds']:
+                d[norm(x)] = (p_, x)
+            if out is None:
+                out = d
+            else:
+                out = dict((k, v) for k, v in out.items() if k in d and d[k][0] == v[0])
+        return out or {}
+
+
+def geo_guard_rules(ctx, facts, required, rp=RP, q=Q):
+    """a handler must run whenever its dimension is selected: not under the truth value of the selector (0 is a layer), and not as an
+    alternative of the handler of another dimension"""
+    for dk, attrs in sorted(required.items()):
+        fs = [f for a in attrs for f in facts.of(a) if f['sel'].get(dk) is True or dk in f['truthy']]
+        if not fs:
+            continue
+        tr = [f for f in fs if dk in f['truthy'] and f['truthy'][dk][1] is True and f['sel'].get(dk) is not True]
+        if tr:
+            t = tr[0]['truthy'][dk][0]
+            ctx.violation(Finding('R-GEOHANDLERS', rp, q, tr[0]['stmt'], 'the %s handler runs only when the selector itself is truthy (%s): the integer 0 - the first layer/row/column/step - is a valid '
+                                  'selection and is skipped, so %s keep the source values' % (dk, norm(t)[:40], '/'.join(attrs))), oid=dk + ':truthy')
+        # when two dimensions are selected in one call both handlers run: some path stores the attributes of both
+        for d2 in sorted(required):
+            if d2 <= dk:
+                continue
+            fs2 = [f for a in required[d2] for f in facts.of(a) if f['sel'].get(d2) is True or d2 in f['truthy']]
+            if not fs2:
+                continue
+            joint = set(f['path'] for f in fs) & set(f['path'] for f in fs2)
+            if not joint:
+                later, first = (dk, d2) if fs[0]['stmt'].lineno > fs2[0]['stmt'].lineno else (d2, dk)
+                lf = fs if later == dk else fs2
+                ctx.violation(Finding('R-GEOHANDLERS', rp, q, lf[0]['stmt'], 'the %s handler is an alternative (elif) of the %s handler: when both dimensions are selected in one call only the first runs and %s '
+                                      'keep the source values' % (later, first, '/'.join(required[later]))), oid=later + ':elif')
+
+
 def run(ctx):
     for r, d in (('R-GEOHANDLERS', 'COL/ROW/LAY/TSTEP each have a handler storing XORIG / YORIG / VGLVLS / SDATE,STIME,TSTEP before updatemeta()'),
                  ('R-XYSYM', 'horizontal handlers mention only names of their own axis'),
@@ -86,85 +213,85 @@ def run(ctx):
     fn = mod.func(Q)
     where = 'src/PseudoNetCDF/%s %s' % (RP, Q)
     # the closing updatemeta
-    last_update = None
-    for st in fn.body:
-        if isinstance(st, ast.Expr) and isinstance(st.value, ast.Call) and dotted(st.value.func) == 'outf.updatemeta':
-            last_update = st
-    if last_update is None:
+    if not any(isinstance(st, ast.Expr) and isinstance(st.value, ast.Call) and dotted(st.value.func) == 'outf.updatemeta' for st in iter_stmts(fn.body)):
         raise AnalysisError('anchor vanished: closing outf.updatemeta() in ioapi_base.sliceDimensions')
-    handlers = find_handlers(fn)
-    kn = key_names(fn)
-    handler_guard_rules(ctx, fn, handlers, kn)
+    facts = Facts(fn)
+    ctx.count('paths of ioapi_base.sliceDimensions (feasible, sliced to the metadata stores)', len(facts.paths))
+    geo_guard_rules(ctx, facts, REQUIRED)
+    nh = 0
     for dk, attrs in sorted(REQUIRED.items()):
-        h = handlers.get(dk)
-        if h is None:
-            ctx.violation(Finding('R-GEOHANDLERS', RP, Q, 'handler for %s' % dk,
+        per = dict((a, [f for f in facts.of(a) if f['sel'].get(dk) is True or dk in f['truthy']]) for a in attrs)
+        anyf = [f for a in attrs for f in per[a]]
+        if not anyf:
+            unsel = [f for a in attrs for f in facts.of(a)]
+            ctx.violation(Finding('R-GEOHANDLERS', RP, Q, unsel[0]['stmt'] if unsel else 'handler for %s' % dk,
                                   'no branch guarded by %r in the selection keywords: %s is not adjusted when %s is subset'
                                   % (dk, '/'.join(attrs), dk), lineno=fn.lineno), oid=dk)
             continue
-        stores = attr_stores(h.body)
-        missing = [a for a in attrs if a not in stores]
-        if h.lineno > last_update.lineno:
-            ctx.violation(Finding('R-GEOHANDLERS', RP, Q, h, 'handler for %s runs after updatemeta()' % dk), oid=dk)
+        nh += 1
+        missing = [a for a in attrs if not per[a]]
+        if not any(f['before_update'] for f in anyf):
+            ctx.violation(Finding('R-GEOHANDLERS', RP, Q, anyf[0]['stmt'], 'handler for %s runs after updatemeta()' % dk), oid=dk)
         elif missing:
-            ctx.violation(Finding('R-GEOHANDLERS', RP, Q, h,
+            ctx.violation(Finding('R-GEOHANDLERS', RP, Q, anyf[0]['stmt'],
                                   'the %s handler does not store %s of the result' % (dk, missing)), oid=dk)
         else:
             ctx.ok('R-GEOHANDLERS', dk, where, '%s handler stores %s' % (dk, attrs))
     # ---- horizontal branches
     for dk in ('COL', 'ROW'):
-        h = handlers.get(dk)
-        if h is None:
-            continue
         origin, cell = SLOTS[dk]
+        fs = [f for f in facts.of(origin)]
+        if not fs:
+            continue
         other = AXIS_NAMES['ROW' if dk == 'COL' else 'COL']
+        ctrl = facts.controlling(fs)
         mentioned = set()
-        for n in [x for part in [h.test] + h.body for x in ast.walk(part)]:
+        # what the handler refers to: the stored expression, and the positive membership guards that every storing path passed
+        parts = [f['new'] for f in fs] + [v[1] for v in ctrl.values() if v[0] is True and isinstance(v[1], ast.Compare) and len(v[1].ops) == 1
+                                          and isinstance(v[1].ops[0], ast.In) and const_str(v[1].left) is not None]
+        for n in [x for part in parts for x in ast.walk(part)]:
             if isinstance(n, ast.Constant) and isinstance(n.value, str):
                 mentioned.add(n.value)
             if isinstance(n, ast.Attribute):
                 mentioned.add(n.attr)
-        # test part too
         foreign = sorted(mentioned & other)
-        if foreign:
-            ctx.violation(Finding('R-XYSYM', RP, Q, h,
+        unsel = [f for f in fs if f['sel'].get(dk) is not True]
+        if foreign or unsel:
+            ctx.violation(Finding('R-XYSYM', RP, Q, (unsel or fs)[0]['stmt'],
                                   'the %s handler mentions %s, which belong to the other horizontal axis (copy-paste slip): '
-                                  'the origin is shifted by the wrong length/selector/cell size' % (dk, foreign)), oid=dk)
+                                  'the origin is shifted by the wrong length/selector/cell size' % (dk, foreign or ['a guard on the other axis'])), oid=dk)
         else:
             ctx.ok('R-XYSYM', dk, where, 'mentions only %s' % sorted(mentioned & AXIS_NAMES[dk]))
         # template: outf.<origin> += np.arange(n)[kwds[dk]].take(0) * outf.<cell>
-        st = attr_stores(h.body).get(origin, [None])[0]
         okt = False
         why = 'no store to %s' % origin
-        if st is not None:
-            val = st.value
-            if isinstance(st, ast.AugAssign) and isinstance(st.op, ast.Add):
+        st = fs[0]['stmt']
+        for f in fs:
+            val = f['value']
+            okt = False
+            if f['aug'] and isinstance(f['op'], ast.Add):
                 pass
-            elif isinstance(st, ast.Assign) and isinstance(val, ast.BinOp) and isinstance(val.op, ast.Add) \
-                    and norm(val.left).endswith('.' + origin):
+            elif not f['aug'] and isinstance(val, ast.BinOp) and isinstance(val.op, ast.Add) and norm(val.left).endswith('.' + origin):
                 val = val.right
+            elif not f['aug'] and isinstance(val, ast.BinOp) and isinstance(val.op, ast.Add) and norm(val.right).endswith('.' + origin):
+                val = val.left
             else:
                 val = None
                 why = '%s is not advanced additively' % origin
             if val is not None and isinstance(val, ast.BinOp) and isinstance(val.op, ast.Mult):
                 sides = [val.left, val.right]
-                cellside = [s for s in sides if isinstance(s, ast.Attribute) and s.attr == cell]
-                idxside = [s for s in sides if s not in cellside]
+                cellside = [s_ for s_ in sides if isinstance(s_, ast.Attribute) and s_.attr == cell]
+                idxside = [s_ for s_ in sides if s_ not in cellside]
                 if cellside and idxside:
                     ix = idxside[0]
                     txt = norm(ix)
-                    # np.arange(N)[kwds['dk']].take(0)   (or [0] / .min())
                     ar = [c for c in walk_expr(ix) if isinstance(c, ast.Call) and (dotted(c.func) or '').endswith('arange')]
-                    sel = [s for s in walk_expr(ix) if isinstance(s, ast.Subscript) and isinstance(s.value, ast.Name)
-                           and s.value.id in ('kwds', 'dimslices') and const_str(s.slice) == dk]
-                    if ar and sel and ('.take(0)' in txt or txt.endswith('[0]')):
-                        n = ar[0].args[0] if ar[0].args else None
-                        # resolve n to its definition inside the handler
-                        ndef = norm(n) if n is not None else ''
-                        if isinstance(n, ast.Name):
-                            for s2 in iter_stmts(h.body):
-                                if isinstance(s2, ast.Assign) and isinstance(s2.targets[0], ast.Name) and s2.targets[0].id == n.id:
-                                    ndef = norm(s2.value)
+                    sel = [s_ for s_ in walk_expr(ix) if sel_of(s_) == (dk, 'sel')]
+                    # the first selected index: arange(n)[selector] then .take(0) / [0] / .min() is not accepted (reversed slices)
+                    first = ('.take(0)' in txt or txt.endswith('[0]')) and any(isinstance(x, ast.Subscript) and x.value is ar[0] and sel_of(x.slice) == (dk, 'sel')
+                                                                                for x in walk_expr(ix)) if ar else False
+                    if ar and sel and first:
+                        ndef = norm(ar[0].args[0]) if ar[0].args else ''
                         if ndef == "len(self.dimensions['%s'])" % dk:
                             okt = True
                         else:
@@ -175,49 +302,44 @@ def run(ctx):
                     why = 'shift is not <first index> * %s' % cell
             elif val is not None:
                 why = 'shift is not a product index * cell'
+            if not okt:
+                st = f['stmt']
+                break
         if okt:
             ctx.ok('R-ORIGINIDX', dk, where, '%s += arange(len(self.dimensions[%r]))[kwds[%r]].take(0) * %s' % (origin, dk, dk, cell))
         else:
-            ctx.violation(Finding('R-ORIGINIDX', RP, Q, st if st is not None else h, '%s handler: %s' % (dk, why)), oid=dk)
-    lay_rules(ctx, fn, handlers.get('LAY'), where)
-    # ---- TSTEP branch
-    h = handlers.get('TSTEP')
-    if h is not None:
-        stores = attr_stores(h.body)
-        sd = stores.get('SDATE', [None])[0]
-        # name from which SDATE is formatted
-        src_name = None
-        if sd is not None:
-            for n in walk_expr(sd.value):
-                if isinstance(n, ast.Call) and isinstance(n.func, ast.Attribute) and n.func.attr == 'strftime':
-                    b = n.func.value
-                    while isinstance(b, ast.Subscript):
-                        b = b.value
-                    if isinstance(b, ast.Name):
-                        src_name = b.id
-        d = None
-        for s in iter_stmts(h.body):
-            if isinstance(s, ast.Assign) and isinstance(s.targets[0], ast.Name) and s.targets[0].id == src_name:
-                d = s
-        if src_name is None or d is None:
-            ctx.undec('R-TIMESRC', 'SDATE/STIME source', where, 'no SDATE store formatted from a times array (see R-GEOHANDLERS)')
-            gt, sel = [], []
-        else:
-          gt = [c for c in walk_expr(d.value) if isinstance(c, ast.Call) and isinstance(c.func, ast.Attribute) and c.func.attr == 'getTimes']
-          sel = [x for x in walk_expr(d.value) if isinstance(x, ast.Subscript) and isinstance(x.slice, ast.Subscript)
-                 and isinstance(x.slice.value, ast.Name) and x.slice.value.id in ('kwds', 'dimslices') and const_str(x.slice.slice) == 'TSTEP']
-        if src_name is None or d is None:
-            pass
-        elif gt and isinstance(gt[0].func.value, ast.Name) and gt[0].func.value.id == 'self' and sel \
-                and sel[0].value is gt[0]:
-            ctx.ok('R-TIMESRC', 'SDATE/STIME source', where, "%s = self.getTimes()[kwds['TSTEP']]" % src_name)
-        elif gt and isinstance(gt[0].func.value, ast.Name) and gt[0].func.value.id != 'self':
-            ctx.violation(Finding('R-TIMESRC', RP, Q, d,
+            ctx.violation(Finding('R-ORIGINIDX', RP, Q, st, '%s handler: %s' % (dk, why)), oid=dk)
+    lay_rules(ctx, fn, facts, where)
+    # ---- TSTEP branch: the value SDATE is formatted from
+    fs = facts.of('SDATE')
+    if fs:
+        verdicts = []
+        for f in fs:
+            gts = [c for c in walk_expr(f['value']) if isinstance(c, ast.Call) and isinstance(c.func, ast.Attribute) and c.func.attr == 'getTimes']
+            if not gts:
+                verdicts.append(('undec', f, None))
+                continue
+            g = gts[0]
+            selected = any(isinstance(x, ast.Subscript) and x.value is g and sel_of(x.slice) == ('TSTEP', 'sel') for x in walk_expr(f['value']))
+            if isinstance(g.func.value, ast.Name) and g.func.value.id == 'self' and selected:
+                verdicts.append(('ok', f, g))
+            elif isinstance(g.func.value, ast.Name) and g.func.value.id != 'self':
+                verdicts.append(('stale', f, g))
+            else:
+                verdicts.append(('undec', f, g))
+        stale = [v for v in verdicts if v[0] == 'stale']
+        if stale:
+            ctx.violation(Finding('R-TIMESRC', RP, Q, stale[0][1]['stmt'],
                                   'the new start date/time is read with %s.getTimes() while the time attributes of the result '
                                   'are still the stale copies of the source: for a file without a TFLAG variable the window '
-                                  'keeps the source start time' % gt[0].func.value.id))
+                                  'keeps the source start time' % stale[0][2].func.value.id))
+        elif all(v[0] == 'ok' for v in verdicts):
+            ctx.ok('R-TIMESRC', 'SDATE/STIME source', where, "formatted from self.getTimes()[kwds['TSTEP']] on %d storing paths" % len(verdicts))
         else:
-            ctx.undec('R-TIMESRC', norm(d)[:70], where, 'source of the new start time not recognised')
+            u = [v for v in verdicts if v[0] == 'undec'][0]
+            ctx.undec('R-TIMESRC', norm(u[1]['new'])[:70], where, 'source of the new start time not recognised')
+    else:
+        ctx.undec('R-TIMESRC', 'SDATE/STIME source', where, 'no SDATE store (see R-GEOHANDLERS)')
     # ---- wrapper classification of selector kinds agrees with the base method (numpy integers are integers)
     from . import c02
     ctx.rule('R-KINDS', 'the wrapper classifies selector kinds (int, numpy int, slice, sequence) exactly like the base method')
@@ -239,19 +361,22 @@ def run(ctx):
                                   'both given that way the origin update is skipped and the dimensions are deleted' % part))
     # ---- the step encoded into TSTEP: HHMMSS = hours*10000 + minutes*100 + seconds
     ctx.rule('R-HMSENC', 'a time built arithmetically from seconds is hours*10000 + minutes*100 + seconds')
-    for st in iter_stmts(fn.body):
-        if isinstance(st, ast.Assign) and isinstance(st.targets[0], ast.Attribute) and st.targets[0].attr in ('TSTEP', 'STIME', 'ETIME') \
-                and isinstance(st.value, ast.Call) and dotted(st.value.func) == 'int' and "strftime('%H%M%S')" in norm(st.value):
+    seen_h = set()
+    for f in [f for a in ('TSTEP', 'STIME', 'ETIME') for f in facts.of(a)]:
+        st, value = f['stmt'], f['value']
+        if (id(st), norm(value)) in seen_h:
+            continue
+        seen_h.add((id(st), norm(value)))
+        if isinstance(value, ast.Call) and dotted(value.func) == 'int' and "strftime('%H%M%S')" in norm(value):
             ctx.ok('R-HMSENC', norm(st)[:60], where, "HHMMSS text from strftime('%H%M%S')")
-        if isinstance(st, ast.Assign) and isinstance(st.targets[0], ast.Attribute) and st.targets[0].attr in ('TSTEP', 'STIME', 'ETIME') \
-                and isinstance(st.value, ast.BinOp) and isinstance(st.value.op, ast.Add):
+        if isinstance(value, ast.BinOp) and isinstance(value.op, ast.Add):
             terms = []
             def flat(e):
                 if isinstance(e, ast.BinOp) and isinstance(e.op, ast.Add):
                     flat(e.left); flat(e.right)
                 else:
                     terms.append(e)
-            flat(st.value)
+            flat(value)
             bad = []
             for t_ in terms:
                 tx = norm(t_).replace('(', '').replace(')', '')
@@ -273,117 +398,102 @@ def run(ctx):
             else:
                 ctx.ok('R-HMSENC', norm(st)[:60], where, 'hours*10000 + minutes*100 + seconds')
     if not any(o.get('rule') == 'R-GEOHANDLERS' and o.get('status') == 'violated' for o in ctx.obligations):
-        ctx.floor('georeferencing handlers', len(handlers), 4)
+        ctx.floor('georeferencing handlers', nh, 4)
     ctx.assumptions.append('np.arange(n)[selector] resolves negative integers and slices against length n (numpy indexing)')
 
 
-def handler_guard_rules(ctx, fn, handlers, kn):
-    # a handler must run whenever its dimension is selected: not under the truth value of the selector (0 is a layer), and not as an
-    # alternative (elif) of the handler of another dimension
-    for dk, h in sorted(handlers.items()):
-        t = h.test
-        bare = [n for n in ast.walk(t) if isinstance(n, ast.Name) and n.id in kn and kn[n.id] == (dk, 'get')]
-        truthy = [n for n in bare if not any(isinstance(p, ast.Compare) and n in list(ast.walk(p)) for p in ast.walk(t))]
-        if truthy:
-            ctx.violation(Finding('R-GEOHANDLERS', RP, Q, h, 'the %s handler runs only when the selector itself is truthy (%s): the integer 0 - the first layer/row/column/step - is a valid '
-                                  'selection and is skipped, so %s keep the source values' % (dk, norm(t)[:40], '/'.join(REQUIRED[dk]))), oid=dk + ':truthy')
-        par = getattr(h, '_parent', None)
-        if isinstance(par, ast.If) and h in par.orelse:
-            others = [k for k in key_tests(par.test, kn) if k != dk and k in REQUIRED]
-            deleting = any(isinstance(s2, ast.Delete) for s2 in par.body)
-            if others and not deleting:
-                ctx.violation(Finding('R-GEOHANDLERS', RP, Q, h, 'the %s handler is an alternative (elif) of the %s handler: when both dimensions are selected in one call only the first runs and %s '
-                                      'keep the source values' % (dk, others[0], '/'.join(REQUIRED[dk]))), oid=dk + ':elif')
-
-
-def find_handlers(fn):
-    """first If per dimension whose test depends on that dimension being selected *and* whose body stores one of its attributes"""
-    handlers = {}
-    kn = key_names(fn)
-    for st in iter_stmts(fn.body):
-        if isinstance(st, ast.If):
-            for k in key_tests(st.test, kn):
-                if k in REQUIRED and k not in handlers:
-                    if any(a in attr_stores(st.body) for a in REQUIRED[k]) or not kn:
-                        handlers[k] = st
-    return handlers
-
-
-def lay_rules(ctx, fn, h, where):
-    if h is not None:
-        stores = attr_stores(h.body).get('VGLVLS', [])
-        env = {}
-        lidx_bound = None
-        for s in iter_stmts(h.body):
-            if isinstance(s, ast.Assign) and isinstance(s.targets[0], ast.Name):
-                nm = s.targets[0].id
-                txt = norm(s.value)
-                if nm == 'lidx' or 'arange' in txt:
-                    ar = [c for c in walk_expr(s.value) if isinstance(c, ast.Call) and (dotted(c.func) or '').endswith('arange')]
-                    sel = [x for x in walk_expr(s.value) if isinstance(x, ast.Subscript) and isinstance(x.value, ast.Name)
-                           and x.value.id in ('kwds', 'dimslices') and const_str(x.slice) == 'LAY']
-                    kn_ = key_names(fn)
-                    sel += [x for x in walk_expr(s.value) if isinstance(x, ast.Name) and kn_.get(x.id) == ('LAY', 'get')]
-                    if ar and sel and ar[0].args:
-                        lidx_name = nm
-                        lidx_bound = to_poly(ar[0].args[0], env, atomize=_atom)
-                else:
-                    env[nm] = to_poly(s.value, env, atomize=_atom)
-        if lidx_bound is None and stores:
-            # every definition of the index that subscripts VGLVLS must be normalised against the layer count
-            ldefs = [s2 for s2 in iter_stmts(h.body) if isinstance(s2, ast.Assign) and isinstance(s2.targets[0], ast.Name) and s2.targets[0].id == 'lidx']
-            raw = [d for d in ldefs if not any(tok in norm(d.value) for tok in ('arange(', '.indices(', ' % ', 'np.where(', 'range('))]
-            if ldefs and raw:
-                ctx.rule('R-LAYNORM', 'the layer selector is resolved against the number of layers before it indexes the (one longer) edge array')
-                ctx.violation(Finding('R-LAYNORM', RP, Q, raw[0], 'the layer selector is used as given (%s): a negative integer then indexes VGLVLS, which has one more entry than '
-                                      'there are layers, from its end, and the window gets the edges of another layer' % norm(raw[0])[:60]))
-                return
-        if lidx_bound is None or not stores:
+def lay_rules(ctx, fn, facts, where, rp=RP, q=Q):
+    """the stored level edges, with temporaries substituted: np.append(VGLVLS[IDX], VGLVLS[IDX[-1] + 1]) where IDX is the selector
+    resolved against the number of layers (arange(VGLVLS.size - 1)[selector]); every decision on the way to the store that compares
+    the last selected layer with a bound is true for every selectable layer (size algebra)"""
+    if isinstance(facts, ast.AST) or facts is None:
+        raise AnalysisError('construct not understood: LAY handler of ioapi_base.sliceDimensions')
+    fs = [f for f in facts.of('VGLVLS') if f['sel'].get('LAY') is True or 'LAY' in f['truthy']]
+    if not fs:
+        if facts.of('VGLVLS'):
             raise AnalysisError('construct not understood: LAY handler of ioapi_base.sliceDimensions')
-        st = stores[0]
-        # guards between the handler and the store
-        guards = []
-        p = getattr(st, '_parent', None)
-        child = st
-        while p is not None and p is not h:
-            if isinstance(p, ast.If) and child in list(iter_stmts(p.body)):
-                guards.append(p)
-            child = p
-            p = getattr(p, '_parent', None)
-        okg = True
-        for g in guards:
-            t = g.test
+        return
+    S1 = to_poly(ast.parse('outf.VGLVLS.size - 1').body[0].value, {}, atomize=_atom)
+    understood, notund, seenv = 0, [], set()
+    for f in fs:
+        if norm(f['value']) in seenv:
+            continue
+        seenv.add(norm(f['value']))
+        v, st = f['value'], f['stmt']
+        # strip view/copy wrappers around the appended array
+        while isinstance(v, ast.Call) and isinstance(v.func, ast.Attribute) and v.func.attr in ('view', 'copy') :
+            v = v.func.value
+        app = v if isinstance(v, ast.Call) and (dotted(v.func) or '').endswith('append') and len(v.args) == 2 else None
+        idx = None
+        if app is not None and isinstance(app.args[0], ast.Subscript) and norm(app.args[0].value) == 'outf.VGLVLS':
+            idx = app.args[0].slice
+        if idx is None:
+            # which index reads VGLVLS at all?
+            subs = [x for x in walk_expr(f['value']) if isinstance(x, ast.Subscript) and norm(x.value) in ('outf.VGLVLS', 'self.VGLVLS')]
+            idx = subs[0].slice if subs else None
+        if idx is None:
+            ctx.violation(Finding('R-LAYEDGES', rp, q, st, 'new level edges are not VGLVLS[lidx] + VGLVLS[lidx[-1] + 1] with lidx '
+                                  'an index into the layers (arange(VGLVLS.size - 1))'))
+            continue
+        itxt = norm(idx)
+        ar = [c for c in walk_expr(idx) if isinstance(c, ast.Call) and (dotted(c.func) or '').endswith('arange') and c.args]
+        selected = [x for x in walk_expr(idx) if isinstance(x, ast.Subscript) and sel_of(x.slice) == ('LAY', 'sel')]
+        bound = None
+        if ar and selected and selected[0].value is ar[0]:
+            bound = to_poly(ar[0].args[0], {}, atomize=_atom)
+        elif ar and len(ar[0].args) == 1 and isinstance(ar[0].args[0], ast.Starred) and isinstance(ar[0].args[0].value, ast.Call) \
+                and isinstance(ar[0].args[0].value.func, ast.Attribute) and ar[0].args[0].value.func.attr == 'indices' \
+                and sel_of(ar[0].args[0].value.func.value) == ('LAY', 'sel') and ar[0].args[0].value.args:
+            bound = to_poly(ar[0].args[0].value.args[0], {}, atomize=_atom)       # arange(*selector.indices(n))
+        if bound is None:
+            if not any(tok in itxt for tok in ('arange(', '.indices(', ' % ', 'np.where(', 'range(')):
+                ctx.rule('R-LAYNORM', 'the layer selector is resolved against the number of layers before it indexes the (one longer) edge array')
+                ctx.violation(Finding('R-LAYNORM', rp, q, st, 'the layer selector is used as given (%s): a negative integer then indexes VGLVLS, which has one more entry than '
+                                      'there are layers, from its end, and the window gets the edges of another layer' % itxt[:60]))
+                understood += 1
+                continue
+            notund.append(itxt[:60])
+            continue
+        understood += 1
+        last = '%s[-1]' % itxt
+        # guards: decisions on this path that compare the last selected layer
+        okg, ng = True, 0
+        for e_, x, p_ in f['conds']:
+            if not (isinstance(x, ast.Compare) and len(x.ops) == 1 and norm(x.left) == last):
+                continue
+            ng += 1
+            rhs = to_poly(x.comparators[0], {}, atomize=_atom)
+            c = (rhs - bound).constval()
             good = False
-            if isinstance(t, ast.Compare) and len(t.ops) == 1 and norm(t.left) == '%s[-1]' % lidx_name:
-                rhs = to_poly(t.comparators[0], env, atomize=_atom)
-                diff = rhs - lidx_bound        # selectable indices are 0 .. bound-1
-                c = diff.constval()
-                if c is not None:
-                    if isinstance(t.ops[0], ast.Lt) and c >= 0:
-                        good = True
-                    if isinstance(t.ops[0], ast.LtE) and c >= -1:
-                        good = True
-                    if not good:
-                        ctx.violation(Finding('R-LAYGUARD', RP, Q, 'if ' + norm(t),
-                                              'layers 0..(%s)-1 can be selected, but the VGLVLS store is skipped when the last '
-                                              'selected layer is >= %s: a window that reaches the top layer keeps the full source '
-                                              'level list (VGLVLS no longer has NLAYS+1 entries)' % (lidx_bound, rhs), lineno=g.lineno))
-                        okg = False
-                        continue
+            if c is not None and p_ is True:
+                if isinstance(x.ops[0], ast.Lt) and c >= 0:
+                    good = True
+                if isinstance(x.ops[0], ast.LtE) and c >= -1:
+                    good = True
+                if not good:
+                    ctx.violation(Finding('R-LAYGUARD', rp, q, 'if ' + norm(e_),
+                                          'layers 0..(%s)-1 can be selected, but the VGLVLS store is skipped when the last '
+                                          'selected layer is >= %s: a window that reaches the top layer keeps the full source '
+                                          'level list (VGLVLS no longer has NLAYS+1 entries)' % (bound, rhs), lineno=getattr(e_, 'lineno', st.lineno)))
+                    okg = False
+                    continue
             if not good:
-                ctx.undec('R-LAYGUARD', norm(t)[:60], where, 'guard not understood by the size algebra')
+                ctx.undec('R-LAYGUARD', norm(e_)[:60], where, 'guard not understood by the size algebra')
                 okg = None
         if okg:
-            ctx.ok('R-LAYGUARD', 'VGLVLS store', where, '%d guard(s), each true for every index below %s' % (len(guards), lidx_bound))
+            ctx.ok('R-LAYGUARD', 'VGLVLS store', where, '%d guard(s), each true for every index below %s' % (ng, bound))
         # edges template
-        txt = ' ; '.join(norm(s) for s in iter_stmts(h.body))
-        sel_ok = 'outf.VGLVLS[%s]' % lidx_name in txt
-        end_ok = 'outf.VGLVLS[%s[-1] + 1]' % lidx_name in txt and 'np.append(' in txt
-        if sel_ok and end_ok and lidx_bound == to_poly(ast.parse('outf.VGLVLS.size - 1').body[0].value, {}, atomize=_atom):
+        end_ok = app is not None and isinstance(app.args[1], ast.Subscript) and norm(app.args[1].value) == 'outf.VGLVLS' \
+            and norm(app.args[1].slice) == '%s + 1' % last
+        if app is not None and norm(app.args[0].slice) == itxt and end_ok and bound == S1:
             ctx.ok('R-LAYEDGES', 'VGLVLS', where, 'VGLVLS[lidx] appended with VGLVLS[lidx[-1] + 1]; lidx drawn from arange(VGLVLS.size - 1)')
         else:
-            ctx.violation(Finding('R-LAYEDGES', RP, Q, st, 'new level edges are not VGLVLS[lidx] + VGLVLS[lidx[-1] + 1] with lidx '
+            ctx.violation(Finding('R-LAYEDGES', rp, q, st, 'new level edges are not VGLVLS[lidx] + VGLVLS[lidx[-1] + 1] with lidx '
                                   'an index into the layers (arange(VGLVLS.size - 1))'))
+    if notund and not understood:
+        raise AnalysisError('construct not understood: LAY handler of ioapi_base.sliceDimensions (index %s)' % notund[0])
+    for t_ in notund:
+        ctx.undec('R-LAYEDGES', t_, where, 'layer index not in a recognised form on this path')
 
 
 def _atom(n):
